@@ -116,7 +116,7 @@ Theorem C08_mismatch_is_badchunk : forall s shape_ok dtype_ok,
   /\ get_chunk_or_placeholder s (LArray shape_ok dtype_ok) = Raise K_BadChunk.
 Proof.
   intros s so dk H.
-  assert (G : get_chunk s (LArray so dk) = Raise K_BadChunk) by (destruct so, dk; try discriminate; reflexivity).
+  assert (G : get_chunk s (LArray so dk) = Raise K_BadChunk) by (rewrite get_chunk_array; destruct so, dk; try discriminate; reflexivity).
   split; [exact G|]. apply (bad_or_unavailable_never_filled s _ K_BadChunk G). left. reflexivity.
 Qed.
 Print Assumptions C08_mismatch_is_badchunk.
@@ -335,3 +335,24 @@ Theorem C08_shifted_boundaries_example :
   map (dmg_weights ex_ds) [[0; 0; 0]; [1; 0; 0]; [2; 0; 0]; [3; 0; 0]] = [2; 2; 2; 2].
 Proof. exact (conj ex_ds_ok ex_ds_values). Qed.
 Print Assumptions C08_shifted_boundaries_example.
+
+(* ChunkStore.get_dask_array(errors=...): which getter (and with which keyword arguments) reads the chunks, for EVERY
+   value of `errors`, from the translated if/elif chain: a number -> get_chunk_or_default(default_value=errors);
+   'placeholder' -> get_chunk_or_placeholder(dryrun=False); 'dryrun' -> placeholders without reading; 'raise' ->
+   get_chunk; any other string -> ValueError.  vis_flags_weights asks for DATA_LOST (a number) for flags and for
+   'placeholder' for every other array.  The dtype/shape test after decoding of each concrete store compares both
+   attributes and raises BadChunk (translated per store). *)
+Theorem C08_getter_selection :
+  get_dask_array_getter ErrNum = GDefault /\
+  get_dask_array_getter (ErrStr "placeholder") = GPlaceholder false /\
+  get_dask_array_getter (ErrStr "dryrun") = GPlaceholder true /\
+  get_dask_array_getter (ErrStr "raise") = GGet /\
+  (forall s, String.eqb s "placeholder" = false -> String.eqb s "dryrun" = false -> String.eqb s "raise" = false ->
+     get_dask_array_getter (ErrStr s) = GValueError) /\
+  vfw_errors_arg AFlags = ErrNum /\ vfw_errors_arg AOther = ErrStr "placeholder".
+Proof. exact getter_selection_total. Qed.
+Print Assumptions C08_getter_selection.
+
+Theorem C08_decoded_check_per_store : forall s, decoded_check s = (true, true, K_BadChunk).
+Proof. exact decoded_check_all. Qed.
+Print Assumptions C08_decoded_check_per_store.
